@@ -53,23 +53,17 @@ for L, RP in read_states():
         body="crate::p01::read_step::<%d, %d, 1, true>" % (L, RP), unwind=42,
         inputs="as C01 read_step1 (len=%d, read_pos=%d), plus: at every Pending a symbolic bool decides whether the receive future is dropped and a new one created" % (L, RP),
         bound="1 transport step, <= 2 futures, small build", role="read_step_cancel")
-    add("C01", "p01::read_step_l%d_r%02d" % (L, RP), T, 2400, 8,
+# Two transport steps per call and the relational two-connection form exceed 8 GB (symbolic write offset after the
+# first chunk): a few instances stay in the thorough tier and are expected to be reported INCONCLUSIVE there.
+for L, RP in ((8, 0), (16, 9)):
+    add("C01", "p01::read_step_l%d_r%02d" % (L, RP), T, 1200, 10,
         body="crate::p01::read_step::<%d, %d, 2, false>" % (L, RP), unwind=42,
-        inputs="read buffer len=%d, read_pos=%d (concrete), the %d buffered bytes symbolic (last one not NUL); transport script of 2 steps, each symbolic in kind {data, pending, eof, error}, chunk length 1..=8 and chunk bytes" % (L, RP, RP),
-        bound="one read_from_socket call, <= 2 transport reads (+ EOF), small build (STEP=8, MAX=32)", role="read_step")
-    add("C07", "p01::read_step_cancel_l%d_r%02d" % (L, RP), T, 2400, 8,
-        body="crate::p01::read_step::<%d, %d, 2, true>" % (L, RP), unwind=42,
-        inputs="as C01 read_step (len=%d, read_pos=%d), plus: at every Pending a symbolic bool decides whether the receive future is dropped and a new one created" % (L, RP),
-        bound="<= 2 transport steps, <= 3 futures, small build", role="read_step_cancel")
-for L, RP in ((8, 0), (8, 5), (16, 9), (32, 0), (32, 27)):
-    add("C01", "p01::read_step3_l%d_r%02d" % (L, RP), T, 1800, 10,
-        body="crate::p01::read_step::<%d, %d, 3, false>" % (L, RP), unwind=42,
-        inputs="as read_step with a script of 3 symbolic steps (len=%d, read_pos=%d)" % (L, RP),
-        bound="one read_from_socket call, <= 3 transport reads", role="read_step")
-    add("C07", "p01::cancel_relational_l%d_r%02d" % (L, RP), T, 1800, 10,
-        body="crate::p01::cancel_relational::<%d, %d, 2>" % (L, RP), unwind=42,
-        inputs="two real connections in state (len=%d, read_pos=%d) fed the same symbolic 2-step script; A's future dropped at a symbolic subset of Pendings, B's never" % (L, RP),
-        bound="<= 2 transport steps", role="cancel_relational")
+        inputs="as read_step1 with a script of 2 symbolic steps (len=%d, read_pos=%d)" % (L, RP),
+        bound="one read_from_socket call, <= 2 transport reads", role="read_step")
+    add("C07", "p01::cancel_relational_l%d_r%02d" % (L, RP), T, 1200, 10,
+        body="crate::p01::cancel_relational::<%d, %d, 1>" % (L, RP), unwind=42,
+        inputs="two real connections in state (len=%d, read_pos=%d) fed the same symbolic 1-step script; A's future dropped at a symbolic subset of Pendings, B's never" % (L, RP),
+        bound="1 transport step, two connections", role="cancel_relational")
 for (L, RP, MP) in ((8, 5, 3), (16, 12, 4), (32, 31, 16)):
     add("C01", "p01::read_step_buffered_l%d_r%02d_m%02d" % (L, RP, MP), Q if L == 8 else T, 600, 6,
         body="crate::p01::read_step_buffered::<%d, %d, %d>" % (L, RP, MP), unwind=42,
@@ -77,27 +71,38 @@ for (L, RP, MP) in ((8, 5, 3), (16, 12, 4), (32, 31, 16)):
         bound="one call", role="read_step_buffered")
 
 for (n1, n2, cut, q) in ((2, 2, 0, True), (2, 2, 3, True), (2, 2, 1, False), (2, 2, 4, False), (3, 2, 0, False), (3, 2, 4, False), (3, 2, 5, False), (2, 3, 0, False), (1, 1, 0, True), (1, 1, 2, False)):
-    add("C01", "p01::recv_frames_%d_%d_c%d" % (n1, n2, cut), Q if q else T, 2400, 12,
+    # depth-2 coroutine nest (read_message -> read_from_socket): no solver verdict (DESIGN 12.1); kept for the native selftest
+    add("C01", "p01::recv_frames_%d_%d_c%d" % (n1, n2, cut), (), 2400, 12,
         body="crate::p01::recv_frames::<%d, %d, %d>" % (n1, n2, cut), unwind=12,
         inputs="stream F1 NUL F2 NUL, F1 = %d and F2 = %d arbitrary non-NUL bytes, %s, then end of stream; three receives of u8" % (n1, n2, "one read" if cut == 0 else "cut into two reads after %d bytes" % cut),
         bound="end to end through read_message::<u8> (transport read, frame boundary, serde_json decode) on 2 frames of <= 3 bytes, small build", role="recv_frames")
 
 for (n1, n2, q) in ((1, 1, True), (2, 2, True), (3, 2, False), (2, 3, False), (3, 3, False)):
-    add("C01", "p01::recv_buffered_%d_%d" % (n1, n2), Q if q else T, 2400, 12,
+    add("C01", "p01::recv_buffered_%d_%d" % (n1, n2), (), 2400, 12,
         body="crate::p01::recv_buffered::<%d, %d>" % (n1, n2), unwind=18,
         inputs="two frames F1 NUL F2 NUL already buffered (F1 = %d, F2 = %d arbitrary non-NUL bytes) behind one consumed byte; two receives of u8 through read_message" % (n1, n2),
         bound="read_message::<u8> twice on a pre-loaded buffer (frame boundary, serde_json decode, cursor update), small build", role="recv_buffered")
 add("C01", "p01::read_init", Q, 300, 4, inputs="none (initial state of the induction)", bound="Connection::new", unwind=4)
 
-for ch in (3, 7, 8):
-    add("C17", "p17::limit_in_ch%d" % ch, Q if ch != 3 else T, 1800, 10,
-        body="crate::p17::limit_in::<%d>" % ch, unwind=50,
-        inputs="frame size (terminator included) symbolic in 1..=48 or never terminated; delivered in chunks of %d bytes from the initial state" % ch,
-        bound="one read_from_socket call from the fresh state, small build (STEP=8, MAX=32)", role="limit_in")
+# Inbound limit, inductively: the one-step family of C01 also asserts "buffer never exceeds the limit", "overflow exactly when
+# the limit is reached" and "grows by one step when exactly full below the limit"; the instances at and next to the limit are
+# registered for C17 under their own names. (The multi-read form from the fresh state, limit_in_ch*, runs out of memory
+# at 10 GB: one instance stays in the thorough tier.)
+C17_IN_QUICK = {(32, 0), (32, 24), (32, 30), (32, 31), (24, 16), (24, 23), (8, 7)}
+for L, RP in read_states():
+    if L < 24 and (L, RP) != (8, 7):
+        continue
+    add("C17", "p01::limit_in_step_l%d_r%02d" % (L, RP), Q if (L, RP) in C17_IN_QUICK else T, 900, 8,
+        body="crate::p01::read_step::<%d, %d, 1, false>" % (L, RP), unwind=42,
+        inputs="read buffer len=%d, read_pos=%d, buffered bytes symbolic; one symbolic transport step (kind, chunk length 1..=8, bytes)" % (L, RP),
+        bound="one read_from_socket call, 1 transport read, small build (STEP=8, MAX=32): limit assertions of the step", role="limit_in_step")
+add("C17", "p17::limit_in_ch8", T, 1200, 12, body="crate::p17::limit_in::<8>", unwind=50,
+    inputs="frame size (terminator included) symbolic in 1..=48 or never terminated; delivered in chunks of 8 bytes from the initial state",
+    bound="one read_from_socket call from the fresh state, small build (STEP=8, MAX=32)", role="limit_in")
 add("C17", "p17::limit_constants", Q, 300, 4, build="prod", body="crate::p17::limit_constants", unwind=2,
     inputs="none: relations between the production constants", bound="production build (BUFFER_SIZE=256, MAX=100 MiB)")
 for (L, P) in ((32, 13), (32, 14), (32, 29), (32, 31), (24, 24), (8, 0)):
-    add("C17", "p02::limit_out_send_l%d_p%02d" % (L, P), Q if (L, P) in ((32, 13), (32, 31)) else T, 900, 8,
+    add("C17", "p02::limit_out_send_l%d_p%02d" % (L, P), (), 900, 8,
         body="crate::p02::send_at::<%d, %d>" % (L, P), unwind=74,
         inputs="write buffer len=%d, pos=%d; symbolic choice send_call/send_reply/send_error with symbolic flags (documents 2..42 bytes)" % (L, P),
         bound="one send from the concrete state; refusal iff pos+len+1 > MAX and then zero transport writes", role="limit_out")
@@ -179,10 +184,10 @@ SMALL_LENS = (8, 16, 24, 32)
 C02_QUICK = {
     "enqueue_reply_at": {(8, 8), (16, 13), (24, 5), (24, 24), (32, 12), (32, 13), (32, 29), (32, 32)},
     "enqueue_call_at": {(24, 24), (32, 0), (32, 29)},
-    "enqueue_str_at": {(32, 7), (32, 12)},
+    "enqueue_str_at": set(),
     "enqueue_refused_at": {(16, 16), (32, 32)},
     "flush_at": {(8, 0), (8, 8), (32, 32)},
-    "send_at": {(8, 0), (32, 13), (32, 31)},
+    "send_at": set(),
 }
 C02_KINDS = [
     ("enqueue_call_at", "Call<Empty> with 3 symbolic flags (8 documents of 2..42 bytes) through enqueue_call"),
@@ -196,7 +201,14 @@ for kind, what in C02_KINDS:
     for L in SMALL_LENS:
         for P in range(0, L + 1):
             quick = (L, P) in C02_QUICK[kind]
-            add("C02", "p02::%s_l%d_p%02d" % (kind, L, P), Q if quick else T, 600 if quick else 1500, 8,
+            tiers = Q if quick else T
+            if kind == "send_at":
+                # send_* = `enqueue; flush().await`: a depth-2 coroutine nest, no verdict in 12 min (DESIGN 12.3); both halves
+                # are checked separately. Bodies stay in the native selftest.
+                tiers = ()
+            if kind == "enqueue_str_at" and (L, P) not in ((32, 7), (32, 12), (8, 8), (24, 3)):
+                continue   # > 11 min each: four instances in the thorough tier
+            add("C02", "p02::%s_l%d_p%02d" % (kind, L, P), tiers, 600 if quick else 1500, 8,
                 body="crate::p02::%s::<%d, %d>" % (kind, L, P), unwind=74,
                 inputs="write buffer len=%d, fill position=%d (concrete); %s" % (L, P, what),
                 bound="one operation from the concrete state (len=%d,pos=%d) of the small build (STEP=8, MAX=32)" % (L, P),
@@ -258,7 +270,7 @@ for mask in range(32):
             # every order with the struct-variant shape; every 5th order for the other shapes of `parameters`
             if mask & 1 and case != 2 and o % 5 != case:
                 continue
-            add("C05", "p05::call_decode_m%02d_o%03d_c%d" % (mask, o, case), Q if (mask, o, case) in C05_CALL_QUICK else T, 600, 6, build="prod",
+            add("C05", "p05::call_decode_m%02d_o%03d_c%d" % (mask, o, case), Q if (mask, o, case) in C05_CALL_QUICK else T, 240, 6, build="prod",
                 body="crate::p05::call_decode_order::<%d, %d, %d>" % (mask, o, case), unwind=50, batch=16,
                 inputs="Call<Meth> decoded from an object with members {%s} in permutation #%d of them%s; method name symbolic among 3 declared + 1 undeclared, each present flag a symbolic bool, x symbolic in {number, null, object}, u32 field value symbolic" % (
                     ", ".join(members), o, ", parameters = " + CALL_CASES[case] if mask & 1 else ""),
@@ -269,7 +281,7 @@ for mask in range(16):
     for o in range(factorial(k)):
         if k >= 5 and o % 11 != 0:
             continue   # 5 and 6 members: every 11th order (all orders of <= 4 members)
-        add("C05", "p05::call_strict_m%02d_o%03d" % (mask, o), Q if (mask, o) in ((15, 0), (15, 715), (8, 3), (0, 1)) else T, 600, 6, build="prod",
+        add("C05", "p05::call_strict_m%02d_o%03d" % (mask, o), Q if (mask, o) in ((15, 0), (15, 715), (8, 3), (0, 1)) else T, 240, 6, build="prod",
             body="crate::p05::call_decode_strict::<%d, %d>" % (mask, o), unwind=50, batch=16,
             inputs="Call<Strict> (method type with deny_unknown_fields) from {method, parameters, %s} in permutation #%d; flag values and the unknown member's value symbolic" % (", ".join(n for i, n in enumerate(NAMES_S) if mask >> i & 1), o),
             bound=C05_B, role="call_decode_strict")
@@ -280,14 +292,14 @@ for mask in range(4):
     k = 1 + popcount(mask)
     for o in range(factorial(k)):
         for case in (range(6) if mask & 1 else range(2)):
-            add("C05", "p05::service_method_m%d_o%d_c%d" % (mask, o, case), Q if (o + case) % 2 == 0 else T, 600, 6, build="prod",
+            add("C05", "p05::service_method_m%d_o%d_c%d" % (mask, o, case), Q if (o + case) % 2 == 0 else T, 240, 6, build="prod",
                 body="crate::p05::service_method_decode::<%d, %d, %d>" % (mask, o, case), unwind=50, batch=8,
                 inputs="Call<varlink_service::Method> for %s from method + {%s} in permutation #%d%s; flag value and interface name byte symbolic" % (
                     SM_CASES[case % 2], ", ".join(n for i, n in enumerate(["parameters", "more"]) if mask >> i & 1), o,
                     ", parameters = " + SP3[case // 2] if mask & 1 else ""),
                 bound=C05_B, role="service_method_decode")
         for case in (range(6) if mask & 1 else (0,)):
-            add("C05", "p05::error_decode_m%d_o%d_c%d" % (mask, o, case), Q if (o + case) % 2 == 0 else T, 600, 6, build="prod",
+            add("C05", "p05::error_decode_m%d_o%d_c%d" % (mask, o, case), Q if (o + case) % 2 == 0 else T, 240, 6, build="prod",
                 body="crate::p05::error_decode_order::<%d, %d, %d>" % (mask, o, case), unwind=50, batch=8,
                 inputs="ReplyError-derived enum (unit, struct, renamed-field, borrowed+Option variants, undeclared name; symbolic) from error + {%s} in permutation #%d%s; field values symbolic" % (
                     ", ".join(n for i, n in enumerate(["parameters", "x"]) if mask >> i & 1), o, ", parameters = " + ERR_CASES[case] if mask & 1 else ""),
@@ -296,7 +308,7 @@ SE = ["PermissionDenied", "ExpectedMore", "MethodNotFound"]
 for mask in range(2):
     for o in range(factorial(1 + mask)):
         for case in (range(9) if mask else range(3)):
-            add("C05", "p05::service_error_m%d_o%d_c%d" % (mask, o, case), Q if (o + case) % 2 == 0 else T, 600, 6, build="prod",
+            add("C05", "p05::service_error_m%d_o%d_c%d" % (mask, o, case), Q if (o + case) % 2 == 0 else T, 240, 6, build="prod",
                 body="crate::p05::service_error_decode::<%d, %d, %d>" % (mask, o, case), unwind=50, batch=8,
                 inputs="varlink_service::Error %s from error%s in permutation #%d%s" % (SE[case % 3], " + parameters" if mask else "", o, ", parameters = " + SP3[case // 3] if mask else ""),
                 bound=C05_B, role="service_error_decode")
@@ -311,23 +323,27 @@ add("C05", "p05::reply_roundtrip", Q, 900, 6, build="prod", unwind=50,
     bound="one reply", role="reply_roundtrip")
 
 # ---------------------------------------------------------------------------------------- C12
-C12_M = ["ping", "add", "say", "opt", "renamed_method", "ren_param", "watch", "notify", "get_2fa_code"]
-C12_ARGS = "arguments symbolic: a: u8, b: bool, x: Option<u8> (presence and value), 1-byte ASCII &str"
+C12_M = ["ping", "add", "say", "opt", "renamed_method", "ren_param", "watch", "notify", "get_2fa_code", "ren_opt"]
+C12_ARGS = "arguments symbolic within fixed-width encodings: a: u8 in 100..=255, b: bool, 1 alphanumeric ASCII char as &str; the Option argument is %s"
 for i, mname in enumerate(C12_M):
-    # The plain async method is a 4-deep coroutine nest: its frame is compared natively only (./check --selftest);
-    # tiers=() keeps the body in the native registry without ever handing it to the solver.
-    add("C12", "p12::proxy_plain_%s" % mname, (), 1800, 10, build="mid", body="crate::p12::proxy_plain::<%d>" % i, unwind=162,
-        inputs="generated method `%s` (native selftest only)" % mname, bound="native only", role="proxy_plain")
-    if mname != "notify":
-        add("C12", "p12::proxy_chain_%s" % mname, Q if mname in ("opt", "ren_param", "watch", "add", "say") else T, 1800, 10, build="mid",
-            body="crate::p12::proxy_chain::<%d>" % i, unwind=162,
-            inputs="generated `chain_%s(..)`; %s" % (mname, C12_ARGS),
-            bound="one chain of one call enqueued on a fresh connection (build with BUFFER_SIZE = MAX_BUFFER_SIZE = 128: the frame fits, the grow-and-retry loop is bounded), frame <= 80 bytes", role="proxy_chain")
-    if mname not in ("notify", "watch"):
-        add("C12", "p12::proxy_ext_%s" % mname, Q if mname in ("opt", "ren_param") else T, 1800, 10, build="mid",
-            body="crate::p12::proxy_ext::<%d>" % i, unwind=162,
-            inputs="generated `chain_ping().%s(..)`; %s" % (mname, C12_ARGS),
-            bound="one chain of two calls enqueued on a fresh connection", role="proxy_ext")
+    for xs in ((False, True) if mname in ("opt", "ren_opt") else (False,)):
+        suffix = mname + ("_some" if xs else "_none" if mname in ("opt", "ren_opt") else "")
+        args = C12_ARGS % ("Some(u8 in 100..=255)" if xs else "None")
+        xb = "true" if xs else "false"
+        # The plain async method is a 4-deep coroutine nest: its frame is compared natively only (./check --selftest);
+        # tiers=() keeps the body in the native registry without ever handing it to the solver.
+        add("C12", "p12::proxy_plain_%s" % suffix, (), 1800, 10, build="mid", body="crate::p12::proxy_plain::<%d, %s>" % (i, xb), unwind=162,
+            inputs="generated method `%s` (native selftest only)" % mname, bound="native only", role="proxy_plain")
+        if mname != "notify":
+            add("C12", "p12::proxy_chain_%s" % suffix, Q, 1200, 12, build="mid",
+                body="crate::p12::proxy_chain::<%d, %s>" % (i, xb), unwind=162,
+                inputs="generated `chain_%s(..)`; %s" % (mname, args),
+                bound="one chain of one call enqueued on a fresh connection (build with BUFFER_SIZE = MAX_BUFFER_SIZE = 128: the frame fits, the grow-and-retry loop is bounded), frame <= 80 bytes", role="proxy_chain")
+        if mname not in ("notify", "watch"):
+            add("C12", "p12::proxy_ext_%s" % suffix, Q if mname in ("opt", "ren_param", "add", "ren_opt") else T, 1200, 12, build="mid",
+                body="crate::p12::proxy_ext::<%d, %s>" % (i, xb), unwind=162,
+                inputs="generated `chain_ping().%s(..)`; %s" % (mname, args),
+                bound="one chain of two calls enqueued on a fresh connection (128/128 build)", role="proxy_ext")
 
 # ---------------------------------------------------------------------------------------- C06
 add("C06", "p06::stream_counts_ready", Q, 900, 10, body="crate::p06::stream_counts::<3, false>", unwind=16,
